@@ -4,6 +4,7 @@ import WebAuthnModel.Model.Url
 import WebAuthnModel.Model.Json
 import WebAuthnModel.Model.San
 import WebAuthnModel.Model.Tpm2
+import WebAuthnModel.Model.Jws
 import Driver.Asks
 /- JSON form of `encoding/asn1` struct values: a struct is the array of its members in declaration order; integers travel as
    decimal strings (int64 does not fit a JSON double), byte strings as hex or null (nil), integer lists as arrays or null. -/
@@ -123,6 +124,22 @@ def handleAsn1 (op : String) (j : Json) : Except String (Option Json) := do
     match Url.hostOf (← getHex j "s") with
     | some h => return some (Json.mkObj [("ok", true), ("host", hex h)])
     | none => return some (Json.mkObj [("ok", false)])
+  | "jws.parse" =>
+    match Jws.parse (← getHex j "raw") with
+    | .unmodelled => return some (Json.mkObj [("status", "unmodelled")])
+    | .error => return some (Json.mkObj [("status", "error")])
+    | .ok t =>
+      return some (Json.mkObj [("status", "ok"), ("protected", hex t.protectedBytes), ("payload", hex t.payload), ("signature", hex t.signature),
+        ("signingInput", hex t.signingInput), ("alg", hex t.alg), ("x5c", Json.arr (t.x5c.map hex).toArray), ("verifiable", t.verifiable)])
+  | "jws.claims" =>
+    match Jws.claims (← getHex j "payload") with
+    | some n => return some (Json.mkObj [("ok", true), ("nonce", hex n)])
+    | none => return some (Json.mkObj [("ok", false)])
+  | "b64.std" =>
+    match Jws.decodeStd (← getHex j "s") with
+    | some b => return some (Json.mkObj [("ok", true), ("b", hex b)])
+    | none => return some (Json.mkObj [("ok", false)])
+  | "jws.strip" => return some (Json.mkObj [("b", hex (Jws.stripWhitespace (← getHex j "s")))])
   | _ => return none
 
 end Driver
